@@ -82,7 +82,12 @@ def run(R, tier):
     pool = algs.AlgPool()
     cache, cases = {}, []
     n = 60 if tier == 'quick' else 1500
+    import time
+    t0, budget = time.time(), float(__import__('os').environ.get('KV_C08_BUDGET_S', '2400'))
     for i in range(n):
+        if time.time() - t0 > budget:        # symbolic generation of dense inverses is slow: the stream is cut by time, the count is reported
+            R.count(f'stream cut after {i} of {n} iterations (time budget {budget:.0f} s)')
+            break
         heavy = i % 3 == 0
         d = rng.choice((1, 2, 3)) if heavy else rng.choice((2, 3, 3, 4, 4, 5))
         hi_inv = heavy and i % 12 == 0          # inverse / division of pure-grade and sparse operands in 4-D
